@@ -30,6 +30,16 @@ from ..pipelinerules import fault_rule
 from ..ppgram import (G, GrammarEval, Langs, NUMS, alt, find_named, int_accept, lit, oneof_strings, seq)
 from ..report import Ctx
 
+GET_LAST_ERROR_REF = '''
+def get_last_error():
+    error = sys.last_value
+    if isinstance(error, ParserException):
+        return ("ParserException", error.__repr__(), error.line_number)
+    if isinstance(error, InstructionExecutionException):
+        return ("InstructionExecutionException", error.__repr__(), error.address)
+    return ("Unknown", error.__repr__())
+'''
+
 EXPLANATION = (
     "Decides the universal negative 'no other exception for any text' as far as it is visible in "
     "the code: (1) for every int() conversion of a token, inclusion of the token's regular "
@@ -527,7 +537,7 @@ def run(ctx: Ctx) -> None:
 
     r = ctx.rule("R15.gui", "front-end error classification")
     f = m.func("gui.webgui.get_last_error")
-    txt = " ".join(ast.unparse(f.node).split())
-    ok = "if isinstance(error, ParserException): return ('ParserException', error.__repr__(), error.line_number)" in txt and \
-        "if isinstance(error, InstructionExecutionException): return ('InstructionExecutionException', error.__repr__(), error.address)" in txt
-    r.check(ok, "webgui.get_last_error", f.loc(), "get_last_error no longer classifies by isinstance on ParserException / InstructionExecutionException")
+    from ..flowspec import compare
+    compare(r, m, f, GET_LAST_ERROR_REF, "webgui.get_last_error", keep=lambda k, s_: False,
+            what="errors are classified by isinstance on ParserException (with its line number) and InstructionExecutionException "
+                 "(with its address); everything else is 'Unknown'")
